@@ -355,6 +355,72 @@ func runParse(c caseT, d *defT, r *resT) {
 	}
 }
 
+// runNearMiss: strings that other number parsers take (signs, exponents, hexadecimal, digit separators, special
+// values) are not "counts followed by declared unit names": a schema with units has to reject them.
+func runNearMiss(c caseT, d *defT, r *resT) {
+	for _, txt := range []string{"-5", "+5", "-0", "1e3", "1E-2", "2e0", ".5", "5.", "0x1p-2", "0x10", "0b11", "0o7", "1_000",
+		"Inf", "-inf", "+Inf", "infinity", "NaN", "nan", "5-", "--5", "1e", "e3"} {
+		if _, err := d.units.ParseInt(txt); err == nil {
+			r.miss("parse_int", "accepts_malformed", c, map[string]any{"text": txt})
+		}
+		if _, err := d.units.ParseFloat(txt); err == nil {
+			r.miss("parse_float", "accepts_malformed", c, map[string]any{"text": txt})
+		}
+		if v, err := schema.NewIntSchema(nil, nil, d.units).Unserialize(txt); err == nil {
+			r.miss("int_schema_unserialize", "accepts_malformed", c, map[string]any{"text": txt, "got": fmt.Sprint(v)})
+		}
+		if v, err := schema.NewFloatSchema(nil, nil, d.units).Unserialize(txt); err == nil {
+			r.miss("float_schema_unserialize", "accepts_malformed", c, map[string]any{"text": txt, "got": fmt.Sprint(v)})
+		}
+		r.Evals += 4
+	}
+}
+
+// runTwin: a second definition with the same base unit and the same multipliers but other names for the multiplier
+// units, used right after the first in the same process (and the first again afterwards): what one definition has
+// built must not show through in the other.
+func runTwin(c caseT, d *defT, r *resT) {
+	if len(d.mults) == 0 {
+		return
+	}
+	base := d.names[len(d.names)-1]
+	var names [][4]string
+	for i := range d.mults {
+		n := d.names[i]
+		names = append(names, [4]string{n[0] + "q", n[1] + "q", n[2] + "q", n[3] + "q"})
+	}
+	twin := mk(base, d.mults, names)
+	sample := []int64{1, d.mults[len(d.mults)-1], d.mults[0], d.mults[0]*3 + 1, 12345}
+	round := func(who string, x *defT, other *defT) {
+		for _, n := range sample {
+			for _, long := range []bool{false, true} {
+				var txt string
+				if long {
+					txt = x.units.FormatLongInt(n)
+				} else {
+					txt = x.units.FormatShortInt(n)
+				}
+				back, err := x.units.ParseInt(txt)
+				r.Evals++
+				if err != nil || back != n {
+					r.miss("twin_definitions", "roundtrip", c, map[string]any{"who": who, "n": n, "text": txt, "parsed": back, "err": errStr(err)})
+				}
+			}
+		}
+		// a name only the other definition declares is not a unit here
+		txt := "2" + other.names[0][0]
+		if other.names[0][0] != x.names[0][0] {
+			if v, err := x.units.ParseInt(txt); err == nil {
+				r.miss("twin_definitions", "accepts_foreign_name", c, map[string]any{"who": who, "text": txt, "got": v})
+			}
+			r.Evals++
+		}
+	}
+	round("first", d, twin)
+	round("twin", twin, d)
+	round("first_again", d, twin)
+}
+
 // runBig sweeps 63-bit quantities and overflowing strings with a math/big oracle and logs
 // the digit structure the code produced, for UnitsTrace.tla.
 func runBig(c caseT, d *defT, r *resT) {
@@ -561,7 +627,7 @@ func handle(raw json.RawMessage) any {
 	case "parse":
 		pi = sup.Guard(func() { runParse(c, d, r) })
 	case "big":
-		pi = sup.Guard(func() { runBig(c, d, r) })
+		pi = sup.Guard(func() { runBig(c, d, r); runNearMiss(c, d, r); runTwin(c, d, r) })
 	}
 	if pi != nil {
 		r.miss(c.Op, "panic", c, map[string]any{"panic": pi.Msg, "frame": pi.Frame, "n": c.N, "toks": c.Exp.Toks})
